@@ -2,7 +2,9 @@ import SqlObjVerif.Lemmas.DdlCols
 import SqlObjVerif.Lemmas.DdlCat
 import SqlObjVerif.Lemmas.DdlStyle
 import SqlObjVerif.Lemmas.DdlFlags
-import SqlObjVerif.Lemmas.DdlXCreate
+import SqlObjVerif.Lemmas.DdlXSql
+import SqlObjVerif.Lemmas.DdlXStyle
+import SqlObjVerif.Lemmas.DdlXJoin
 /-!
 # C14 — the generated schema matches the class declaration, in every dialect
 
@@ -213,7 +215,10 @@ section Translated
 open SqlObjVerif.DdlX
 open SqlObjVerif.PyDdl (callN R Val Callee)
 open SqlObjVerif.PyDdl.Extracted (prog M__extraSQL M_createColumn M_createIDColumn M_joinSQLType
-  M__SO_createJoinTableSQL M_createColumns)
+  M__SO_createJoinTableSQL M_createColumns M_createReferenceConstraint M_createReferenceConstraints M_createTableSQL
+  F_mixedToUnder F_underToMixed F_capword F_lowerword M_pythonAttrToDBColumn M_dbColumnToPythonAttr
+  M_pythonClassToDBTable M_tableReference M_idForTable M_instanceAttrToIDAttr M_pythonClassToAttr
+  C_SQLObject M__getJoinsToCreate M_createJoinTablesSQL)
 
 /-- `SOCol._extraSQL` = `extraPieces` (NOT NULL / UNIQUE / DEFAULT in source order) on every column class -/
 theorem C14_translated_extraSQL_eq_model (n : Nat) (st : Style) (tb : Str) (c0 : Val) (col : Col) :
@@ -297,6 +302,146 @@ example : callN prog ddlI 8 (.meth (connCls .mysql) M_createColumns)
        ⟨[98], none, .enum [some [120], none], false, none, false, none⟩], [], []⟩ .none] =
     .ok (.str (lit "    id INT PRIMARY KEY AUTO_INCREMENT,\n    a DATETIME(6) NOT NULL,\n    b ENUM('x')")) := by
   rfl
+
+/-! #### reference constraints and `createTableSQL` -/
+
+/-- `<Connection>.createReferenceConstraint(soClass, col)` → `col.<dialect>CreateReferenceConstraint()` for a foreign
+    key = `alterFk`: on MySQL / PostgreSQL the `ALTER TABLE … ADD CONSTRAINT … FOREIGN KEY … REFERENCES …` statement
+    with the ON DELETE action chosen from `cascade` (None ↦ none, 'null' ↦ SET NULL, true ↦ CASCADE, false ↦ RESTRICT;
+    MySQL prefixes the constraint name with `table.split('.')[-1]`); `None` on the five other dialects (for MaxDB /
+    MSSQL / Sybase this is the known finding "no ON DELETE action", kept as it is) -/
+theorem C14_translated_referenceConstraint_eq_model (n : Nat) (d : Dialect) (c : Caps) (sv : Val) (decl : Decl)
+    (c0 : Val) (tT tI : Str) (tS : Bool) (cas : Cascade) (name : Str) (dbn : Option Str) (nn : Bool) (uq : Option Bool)
+    (alt : Bool) (ds : Option Str) :
+    callN prog ddlI (n + 2) (.meth (connCls d) M_createReferenceConstraint)
+        [connV d c, sv, colV Extracted.tables decl.style decl.tableName c0 (fkCol name dbn tT tI tS cas nn uq alt ds)] =
+      .ok (optStr (alterFk Extracted.tables d decl (fkCol name dbn tT tI tS cas nn uq alt ds))) :=
+  fk_refConstraint n _ d c sv decl c0 tT tI tS cas name dbn nn uq alt ds
+
+/-- `DBAPI.createReferenceConstraints` (the isinstance-filtered comprehension and the truthiness filter) = `constraints` -/
+theorem C14_translated_createReferenceConstraints_eq_model (n : Nat) (d : Dialect) (c : Caps) (decl : Decl) (c0 : Val) :
+    callN prog ddlI (n + 3) (.meth (connCls d) M_createReferenceConstraints) [connV d c, soClassV decl c0] =
+      .ok (strList (constraints Extracted.tables d decl)) :=
+  createReferenceConstraints_eq n d c decl c0
+
+/-- **`DBAPI.createTableSQL` translated = (`createTableSQL`, `constraints`) of the hand model**, or both refuse -/
+theorem C14_translated_createTableSQL_eq_model (n : Nat) (d : Dialect) (c : Caps) (decl : Decl) (c0 : Val) :
+    agreesT (callN prog ddlI (n + 9) (.meth (connCls d) M_createTableSQL) [connV d c, soClassV decl c0])
+      (createTableSQL Extracted.tables d c decl) (constraints Extracted.tables d decl) :=
+  createTableSQL_agrees n d c decl c0
+
+/-- **C14 about the translated `createTableSQL`.**  Whatever text the TRANSLATED `DBAPI.createTableSQL` returns for a
+    well-formed declaration, its skeleton is the key column followed by the declared columns. -/
+theorem C14_translated_createTableSQL_skeleton (n : Nat) (d : Dialect) (c : Caps) (bs : Bool) (decl : Decl) (c0 : Val)
+    (hbs : bsOK bs (litDb Extracted.tables d)) (hwf : declWF bs decl = true) (text : Str) (cons : Val)
+    (h : callN prog ddlI (n + 9) (.meth (connCls d) M_createTableSQL) [connV d c, soClassV decl c0] =
+      .ok (.tuple [.str text, cons])) :
+    skeleton bs text = idSkel d decl :: decl.cols.map (skelOf decl.style) := by
+  have ha := createTableSQL_agrees n d c decl c0
+  cases hm : createTableSQL Extracted.tables d c decl with
+  | none =>
+    rw [hm] at ha
+    obtain ⟨e, he⟩ := ha
+    rw [he] at h; cases h
+  | some t =>
+    rw [hm] at ha
+    simp only [agreesT] at ha
+    rw [ha] at h
+    injection h with h; injection h with h; injection h with h1 h2; injection h1 with h1; subst h1
+    exact C14_skeleton_eq_declaration d c bs decl hbs hwf t hm
+
+/-! #### styles.py -/
+
+theorem C14_translated_style_mixedToUnder_eq_model (n : Nat) (s : Str) :
+    callN prog ddlI (n + 4) (.func F_mixedToUnder) [.str s] = .ok (.str (mixedToUnder s)) := mixedToUnder_call n s
+
+theorem C14_translated_style_underToMixed_eq_model (n : Nat) (s : Str) :
+    callN prog ddlI (n + 2) (.func F_underToMixed) [.str s] = .ok (.str (underToMixed s)) := underToMixed_call n s
+
+/-- `capword` / `lowerword` on a non-empty word (`''` raises IndexError, also in the translation) -/
+theorem C14_translated_style_capword_eq_model (n : Nat) (c : Nat) (s : Str) :
+    callN prog ddlI (n + 1) (.func F_capword) [.str (c :: s)] = .ok (.str (capword (c :: s))) ∧
+    callN prog ddlI (n + 1) (.func F_lowerword) [.str (c :: s)] = .ok (.str (lowerword (c :: s))) ∧
+    callN prog ddlI (n + 1) (.func F_capword) [.str []] = .exc .indexError :=
+  ⟨capword_call n c s, lowerword_call n c s, capword_call_empty n⟩
+
+/-- the methods of `Style`, `MixedCaseUnderscoreStyle`, `MixedCaseStyle` (dispatched through the class table) -/
+theorem C14_translated_style_attrToCol_eq_model (n : Nat) (st : Style) (lid : Bool) (c : Nat) (s : Str) :
+    callN prog ddlI (n + 5) (.meth (styleCls st) M_pythonAttrToDBColumn) [styleV st lid, .str (c :: s)] =
+      .ok (.str (st.attrToCol (c :: s))) := style_attrToCol_call n st lid c s
+
+theorem C14_translated_style_colToAttr_eq_model (n : Nat) (st : Style) (lid : Bool) (c : Nat) (s : Str) :
+    callN prog ddlI (n + 3) (.meth (styleCls st) M_dbColumnToPythonAttr) [styleV st lid, .str (c :: s)] =
+      .ok (.str (st.colToAttr (c :: s))) := style_colToAttr_call n st lid c s
+
+theorem C14_translated_style_classToTable_eq_model (n : Nat) (st : Style) (lid : Bool) (c : Nat) (s : Str) :
+    callN prog ddlI (n + 5) (.meth (styleCls st) M_pythonClassToDBTable) [styleV st lid, .str (c :: s)] =
+      .ok (.str (st.classToTable (c :: s))) := style_classToTable_call n st lid c s
+
+theorem C14_translated_style_idForTable_eq_model (n : Nat) (st : Style) (lid : Bool) (t : Str) :
+    callN prog ddlI (n + 1) (.meth (styleCls st) M_tableReference) [styleV st lid, .str t] =
+      .ok (.str (st.tableReference t)) ∧
+    callN prog ddlI (n + 2) (.meth (styleCls st) M_idForTable) [styleV st lid, .str t] =
+      .ok (.str (st.idForTable lid t)) :=
+  ⟨style_tableReference_call n st lid t, style_idForTable_call n st lid t⟩
+
+theorem C14_translated_style_idAttr_eq_model (n : Nat) (st : Style) (lid : Bool) (c : Nat) (s : Str) :
+    callN prog ddlI (n + 1) (.meth (styleCls st) M_instanceAttrToIDAttr) [styleV st lid, .str (c :: s)] =
+      .ok (.str (Style.attrToIDAttr (c :: s))) ∧
+    callN prog ddlI (n + 2) (.meth (styleCls st) M_pythonClassToAttr) [styleV st lid, .str (c :: s)] =
+      .ok (.str (Style.classToAttr (c :: s))) :=
+  ⟨style_attrToIDAttr_call n st lid (c :: s), style_classToAttr_call n st lid c s⟩
+
+/-- **Round trip, about the translated source**: the translated `underToMixed` maps what the translated
+    `mixedToUnder` returns for a camel-case name back to that name -/
+theorem C14_translated_style_roundtrip (n m : Nat) (s t : Str) (h : Camel s = true)
+    (ht : callN prog ddlI (n + 4) (.func F_mixedToUnder) [.str s] = .ok (.str t)) :
+    callN prog ddlI (m + 2) (.func F_underToMixed) [.str t] = .ok (.str s) := by
+  rw [mixedToUnder_call] at ht
+  injection ht with ht; injection ht with ht; subst ht
+  rw [underToMixed_call, style_roundtrip h]
+
+/-- **Injectivity, about the translated source**: two camel-case names the translated `mixedToUnder` maps to the
+    same column name are equal -/
+theorem C14_translated_style_mixedToUnder_injective (n m : Nat) (a b : Str) (ha : Camel a = true) (hb : Camel b = true)
+    (h : callN prog ddlI (n + 4) (.func F_mixedToUnder) [.str a] = callN prog ddlI (m + 4) (.func F_mixedToUnder) [.str b]) :
+    a = b := by
+  rw [mixedToUnder_call, mixedToUnder_call] at h
+  injection h with h; injection h with h
+  exact style_mixedToUnder_injective ha hb h
+
+/-- the foreign-key column name, through the translated default style -/
+theorem C14_translated_style_fk_column_name (n : Nat) (s : Str) (hne : s ≠ []) (hID : endsWith s [73, 68] = false) :
+    callN prog ddlI (n + 4) (.func F_mixedToUnder) [.str (s ++ [73, 68])] =
+      .ok (.str (mixedToUnder s ++ [95, 105, 100])) := by
+  rw [mixedToUnder_call, style_fk_name hne hID]
+
+/-! #### link tables -/
+
+/-- `SQLObject._getJoinsToCreate` (the loop with its four `continue`s) = the fold `joinsToCreateX` -/
+theorem C14_translated_joinsToCreate_eq_model (n : Nat) (js : List (Option JoinD)) :
+    callN prog ddlI (n + 1) (.meth C_SQLObject M__getJoinsToCreate) [joinClsV js] =
+      .ok (.list ((joinsToCreateX js).map jV)) := getJoinsToCreate_eq n js
+
+/-- … and the link tables it selects are the hand model's: joins with an intermediate table, `createRelatedTable`
+    not false, on the side `createsLink` picks (class-name order), each table once (`linksOf true`) -/
+theorem C14_translated_joinsToCreate_links (js : List (Option JoinD)) :
+    (joinsToCreateX js).map (·.join.table) =
+      linksOf true (((js.filterMap id).filter eligible).map (·.join.table)) := joinsToCreate_tables js
+
+/-- `SQLObject.createJoinTablesSQL` = the `joinTableSQL` texts of those joins, joined by `";\n"` -/
+theorem C14_translated_createJoinTablesSQL_eq_model (n : Nat) (d : Dialect) (c : Caps) (js : List (Option JoinD)) :
+    callN prog ddlI (n + 3) (.meth C_SQLObject M_createJoinTablesSQL) [joinClsV js, connV d c] =
+      .ok (.str (joinWith (lit ";\n") ((joinsToCreateX js).map fun j => joinTableSQL Extracted.tables d j.join))) :=
+  createJoinTablesSQL_eq n d c js
+
+/-- non-vacuity: a self-referential join declared in both directions is selected once; the later class selects nothing -/
+example : (joinsToCreateX [some ⟨true, none, [65], [65], ⟨[108], [120], [121]⟩⟩,
+    some ⟨true, none, [65], [65], ⟨[108], [121], [120]⟩⟩, none,
+    some ⟨true, none, [66], [65], ⟨[109], [120], [121]⟩⟩]).map (·.join.table) = [[108]] := by decide
+
+example : callN prog ddlI 4 (.func F_mixedToUnder) [.str [102, 111, 111, 66, 97, 114, 73, 68]] =
+    .ok (.str [102, 111, 111, 95, 98, 97, 114, 95, 105, 100]) := by rfl
 
 end Translated
 
